@@ -20,6 +20,10 @@ pub enum Op {
     ServeClient,
     /// the peer unchokes the client (so that the client starts fetching from it)
     UnchokeClient,
+    /// n back-to-back requests for full blocks of an owned piece, sent without reading anything in between: the
+    /// answers exceed what the socket buffers, the client's writes have to wait for the reader
+    #[serde(alias = "Burst")]
+    Burst(u8),
 }
 
 #[derive(Clone, Debug, Serialize, Deserialize)]
@@ -59,6 +63,7 @@ fn strategy() -> BoxedStrategy<Case> {
                 2 => Just(Op::Rotate),
                 2 => Just(Op::ServeClient),
                 1 => Just(Op::UnchokeClient),
+                1 => (8u8..48).prop_map(Op::Burst),
             ];
             let valid = (1u32..2, 0u32..8, 1u32..=32).prop_map(|(i, b, l)| Op::Request(i, b, l));
             (Just(pl), 1..=pl, prop_oneof![
@@ -114,6 +119,11 @@ pub fn check(c: &Case) -> Outcome {
             if !seed_pieces(w, &mut net, &owned).await {
                 return (vec![("harness-setup-failed".to_string(), format!("set-up download did not complete; fatal {:?}", w.fatal()))], classes, w.fatal());
             }
+            // a third of the cases: the kernel takes the client's writes to this peer only a few KiB at a time
+            if c.seed % 3 == 0 {
+                w.small_sndbuf = true;
+                classes.push("small-kernel-send-buffer");
+            }
             let p = net.connect(w, false);
             let conn = net.peers[p].conn;
             net.handshake(w, p);
@@ -148,6 +158,19 @@ pub fn check(c: &Case) -> Outcome {
                         }
                         if (*b as u64 + *l as u64) > u32::MAX as u64 {
                             classes.push("begin+length-wraps-u32");
+                        }
+                    }
+                    Op::Burst(cnt) => {
+                        let unchoked = !net.peers[p].view.client_chokes_us;
+                        let plen = t2.geo.piece_length(1) as u32;
+                        let l = plen.min(16384);
+                        for j in 0..*cnt as u32 {
+                            let b = if plen > l { (j * 4096) % (plen - l + 1) } else { 0 };
+                            w.send_frame(conn, &RFrame::Request(1, b, l));
+                            reqs.push(Req { i: 1, b, l, unchoked_when_sent: unchoked, answers: 0, op: k });
+                        }
+                        if unchoked && (*cnt as usize) * (l as usize) > 300_000 {
+                            classes.push("answers-exceed-socket-buffer");
                         }
                     }
                     Op::ServeClient => {
